@@ -166,13 +166,28 @@ def fold_loop(I, s: ast.For, k: int, rule: Fold):
             fresh_state[v] = I.from_val(Val(val.sort, I.fresh(val.sort, v)))
             if isinstance(fresh_state[v], SAdt):
                 fresh_state[v].fresh = getattr(outer_env[v], "fresh", False)
+                if getattr(outer_env[v], "pyclass", None) and not fresh_state[v].pyclass:
+                    fresh_state[v].pyclass = outer_env[v].pyclass
         elems = [I.from_val(Val(srt, I.fresh(srt, fld))) for fld, srt in elem_fields]
+
+        # the L1 accumulator on the same symbolic state/element; invariant: every state variable is its image of the accumulator
+        env0 = code_env_vals({**outer_env, **fresh_state})
+        for nm, el in zip(target_names(s.target), elems):
+            env0[nm] = I.to_val(el)
+        acc_val = spec_term(I, rule.acc, env0, tag, want=dict(f.params)[sh["acc"]])
+        inv_hyps = []
+        for v in state_vars:
+            img = spec_term(I, rule.state[v], {"acc": acc_val}, tag)
+            cur = I.to_val(fresh_state[v])
+            if not z3.eq(z3.simplify(img.v), z3.simplify(cur.v)):
+                inv_hyps.append(cur.v == img.v)
 
         def run():
             I.st.env = dict(outer_env)
             for t in temporaries:
                 I.st.env[t] = SOpaque(f"loop-carried temporary {t}")
             I.st.env.update(fresh_state)
+            I.st.pc.extend(inv_hyps)
             bind_target(I, s.target, elems)
             try:
                 I.exec_block(s.body)
@@ -181,11 +196,6 @@ def fold_loop(I, s: ast.For, k: int, rule: Fold):
             return SNone()
         saved_ord = (I.loop_ordinal, I.comp_ordinal) if hasattr(I, "loop_ordinal") else None
         paths = I.explore(run)
-        # the L1 step on the same symbolic state/element
-        env0 = code_env_vals({**outer_env, **fresh_state})
-        for nm, el in zip(target_names(s.target), elems):
-            env0[nm] = I.to_val(el)
-        acc_val = spec_term(I, rule.acc, env0, tag, want=dict(f.params)[sh["acc"]])
         senv = {sh["acc"]: acc_val}
         for nm, el in zip(sh["elem_vars"], elems):
             senv[nm] = I.to_val(el)
@@ -237,6 +247,13 @@ def fold_loop(I, s: ast.For, k: int, rule: Fold):
         if I.branch(c):
             raise _Raise(SExc(rule.raises, []), s.lineno)
     acc0 = spec_term(I, rule.acc, env0, tag, want=dict(f.params)[sh["acc"]])
+    for v in state_vars:
+        # the invariant at loop entry (trivial when the accumulator is built from all state variables)
+        img = spec_term(I, rule.state[v], {"acc": acc0}, tag)
+        cur = I.to_val(I.coerce_param(outer_env[v], img.sort)) if not isinstance(outer_env[v], SOpaque) else None
+        if cur is None or not z3.eq(z3.simplify(img.v), z3.simplify(cur.v)):
+            I.oblige(f"R:{tag}.entry.{v}", z3.BoolVal(False) if cur is None else cur.v == img.v, where=I.src.line(I.module, s),
+                     note=f"at loop entry `{v}` == `{rule.state[v]}` of the initial accumulator")
     args = []
     for pn, ps in f.params:
         if pn == sh["lparam"]:
